@@ -296,6 +296,19 @@ func (w *world) buildRegistry() {
 	p = moduleOwned("dead0", 0, "udead")
 	must(w.suicide(w.bctx(), p.token), "suicide")
 
+	// a module-owned pair with TWO denominations (RegisterCoin for the first, AddCoin for the second); packets carry the
+	// second one, and every receiver already holds some of the first
+	{
+		first := moduleOwned("multi0", 0, "umulti0")
+		v2 := w.seedVoucher(0, "umulti1", w.users[0], 1000)
+		_, err := k.AddCoin(w.bctx(), metadataFor(v2, "multi1"), first.token.String())
+		must(err, "AddCoin multi1")
+		w.addPair(&pairInfo{label: "multi1", base: "umulti1", ch: 0, voucher: v2, token: first.token, kind: tkModule})
+		for _, u := range w.users {
+			w.seedVoucher(0, "umulti0", u, 5_000_000)
+		}
+	}
+
 	external := func(label string, ch int, base string, kind tokenKind, fund bool) {
 		var token common.Address
 		switch kind {
@@ -341,7 +354,7 @@ func (w *world) buildRegistry() {
 }
 
 // aDenoms are the denominations A's sender account holds (honest MsgTransfer).
-var aDenoms = []string{"uatom", "uosmo", "upause", "udead", "uext", "uextdry", "usiphon", "udelay", "ufree", "unew"}
+var aDenoms = []string{"uatom", "uosmo", "upause", "udead", "uext", "uextdry", "usiphon", "udelay", "ufree", "unew", "umulti0", "umulti1"}
 
 func (w *world) fundA() {
 	ctx := w.A.GetContext()
